@@ -119,6 +119,63 @@ pub fn run(thorough: bool, seed: u64, w: &mut impl std::io::Write) {
             }
         }
     }
+    // dictionary: every byte string the source under test mentions as a literal, at the start / in the middle / right
+    // before the terminator of lines of several lengths (constants the code special-cases: markers, magic prefixes, ...)
+    let dict = dict();
+    let mut dn = 0usize;
+    for t in dict.iter().take(160) {
+        for term in [&b"\n"[..], b"\r\n", b"\0"] {
+            for k in [0usize, 1, 5, 13] {
+                let fill = vec![b'q'; k];
+                let mut shapes: Vec<Vec<u8>> = vec![];
+                shapes.push([&t[..], &fill[..], term].concat());
+                shapes.push([&fill[..], &t[..], term].concat());
+                shapes.push([&fill[..], &t[..], &fill[..], term, &t[..]].concat());
+                shapes.push([&t[..], term, &t[..], term].concat());
+                if k == 0 {
+                    shapes.push(t.clone());
+                }
+                for s in shapes {
+                    for f in provided {
+                        line(f, &s, w);
+                        n += 1;
+                        dn += 1;
+                    }
+                }
+            }
+        }
+    }
+    // inputs far longer than any buffer size the crate documents (windows, block sizes, u16 lengths): terminator early,
+    // late, absent
+    for len in [4090usize, 4096, 4097, 5000, 8192, 8199, 10000, 65537] {
+        if len > 10000 && !thorough {
+            continue;
+        }
+        for term in [&b"\n"[..], b"\r\n", b"\0"] {
+            for pos in [Some(0usize), Some(5), Some(len / 2), Some(len - term.len()), None] {
+                for filler in [b'x', 0x80u8] {
+                    let mut s = vec![filler; len];
+                    if let Some(p) = pos {
+                        s[p..p + term.len()].copy_from_slice(term);
+                    }
+                    for f in provided {
+                        line(f, &s, w);
+                        n += 1;
+                    }
+                    // a second terminator near the end must not change the answer
+                    if pos == Some(5) {
+                        let l = s.len();
+                        s[l - term.len()..].copy_from_slice(term);
+                        for f in provided {
+                            line(f, &s, w);
+                            n += 1;
+                        }
+                    }
+                }
+            }
+        }
+    }
+    eprintln!("STAT df dictionary_tokens={} dictionary_cases={} long_inputs_up_to={}", dict.len(), dn, if thorough { 65537 } else { 10000 });
     // the test deframers too (they are part of the T1/T2 ties)
     for s in strings(&[b'a', b'x', b'\n', 1, 2], 4) {
         for f in [Df::Reject, Df::RejectX, Df::LenPrefix] {
